@@ -269,6 +269,12 @@ mod imp {
         String::from(s)
     }
 
+    /// stub for `<core::io::error::repr::Repr as Drop>::drop` / `<core::io::CustomOwner as Drop>::drop`:
+    /// an io::Error is leaked instead of dropped. Without it CBMC walks io::Error's recursive drop
+    /// glue (Box<dyn Error> -> every Error impl -> io::Error ...) at every `?` of the scanner and
+    /// runs out of memory; a leaked error box does not change what the scanner returns or reports.
+    pub fn stub_drop_noop<T>(_this: &mut T) {}
+
     /// cheaper stub for `alloc::fmt::format` for harnesses in which neither the emptiness nor the
     /// code prefix of a formatted string is consulted by the code under test or by the harness:
     /// no allocation at all.
